@@ -1,7 +1,7 @@
 (* C08 — State matrices stay well-formed under every operator.
    Only statements, each closed by [exact], followed by Print Assumptions. *)
 From Coq Require Import List ZArith.
-From EPG Require Import Scalar QI State Ops Views WfProof Exchange WfExt.
+From EPG Require Import Scalar QI State Ops Views WfProof Exchange WfExt ShiftND PruneProofs.
 From EPG.Model Require Import Diffusion.
 Import ListNotations.
 
@@ -72,6 +72,13 @@ Theorem C08_exchange_fixes_equilibrium (S : ScalOps) (L : ScalLaws S) (n : nat) 
   x_apply_fibre n MT MC ML eq eq i k = eq i k.
 Proof. exact (x_fibre_equilibrium S L n MT MC ML eq i k). Qed.
 Print Assumptions C08_exchange_fixes_equilibrium.
+
+(* the n-D integer shift rebuilds F- as the mirror conjugate of the relocated F+: F-(j) = conj F+(N-1-j) holds for
+   every plan and every input, before pruning *)
+Theorem C08_nd_shift_fm_mirror (S : ScalOps) (p : plan) (amps : list (triple S)) (j : nat) : (j < length (pk p))%nat ->
+  fm (nth j (relocate p amps) t0) = kconj (fp (nth (length (pk p) - 1 - j) (relocate p amps) t0)).
+Proof. exact (relocate_fm_mirror S p amps j). Qed.
+Print Assumptions C08_nd_shift_fm_mirror.
 
 (* non-vacuity: a program with D whose side conditions hold, on the executed instance *)
 Example C08_nonvacuous_ext :
